@@ -369,6 +369,8 @@ pub fn check_one(text: &str, shell: &str, out: &mut Vec<Violation>) -> bool {
         let mut text_msgs = vec![];
         if sh == "bash" {
             crate::c04bash::check_text(&comp2, &v, &mut text_msgs);
+        } else {
+            crate::c04text::check_text(&comp2, &v, &sh, &mut text_msgs);
         }
         (msgs, text_msgs)
     });
@@ -379,7 +381,7 @@ pub fn check_one(text: &str, shell: &str, out: &mut Vec<Violation>) -> bool {
                 out.push(viol(&format!("C04.tables.{f}"), m, text, shell, &f));
             }
             for (f, m) in text_msgs {
-                out.push(viol(&format!("C04.bash_text.{f}"), m, text, shell, &f));
+                out.push(viol(&format!("C04.{shell}_text.{f}"), m, text, shell, &f));
             }
         }
     }
@@ -420,7 +422,15 @@ pub fn run(thorough: bool, seed: u64) -> Report {
             check_one(text, sh, &mut rep.violations);
         }
     }
-    rep.samples.push(J::obj(vec![("accepted_cases", J::Num(accepted as i64))]));
+    let mut pool_pairs = 0u64;
+    // isomorphic_to / shape_hash on pairs the emitters happen not to compare: every pair of
+    // distinct within-word table sets met anywhere in the corpus
+    for sh in ["bash", "zsh"] {
+        let (pairs, mut vs) = iso_pool(&corpus, sh);
+        pool_pairs += pairs;
+        rep.violations.append(&mut vs);
+    }
+    rep.samples.push(J::obj(vec![("accepted_cases", J::Num(accepted as i64)), ("isomorphism_pairs_compared", J::Num(pool_pairs as i64))]));
     if accepted * 3 < rep.cases {
         rep.undecided.push("fewer than a third of the corpus accepted".into());
     }
@@ -436,4 +446,69 @@ pub fn replay(args: &[String]) -> i32 {
         println!("  [{}] {}", x.obligation, x.what);
     }
     if v.iter().any(|x| &x.obligation == obl) { 1 } else { 0 }
+}
+
+/// All distinct within-word table sets of the corpus (for one shell's numbering), compared
+/// pairwise: `isomorphic_to` may only hold between table sets that print identically, and
+/// isomorphic table sets must hash alike.
+fn iso_pool(corpus: &[crate::gram::Grammar], shell: &str) -> (u64, Vec<Violation>) {
+    let start = array_start(shell);
+    let mut pool: Vec<(th::Tables, String, u64, String)> = vec![];
+    let mut seen: BTreeSet<String> = BTreeSet::new();
+    // same pieces, same shape, different assignment of `||` levels / descriptions / commands
+    let mut texts: Vec<String> = vec![];
+    for (o1, o2) in [("|", "|"), ("|", "||"), ("||", "|"), ("||", "||")] {
+        texts.push(format!("cmd p(aa {o1} bb {o2} cc) q;\n"));
+        texts.push(format!("cmd p(aa {o1} {{{{{{ c1 }}}}}} {o2} {{{{{{ c2 }}}}}}) q;\n"));
+        texts.push(format!("cmd p({{{{{{ c2 }}}}}} {o1} {{{{{{ c1 }}}}}} {o2} aa) q;\n"));
+        texts.push(format!("cmd p(<P> {o1} <Q> {o2} aa) q;\n<P@zsh> ::= {{{{{{ c1 }}}}}};\n<Q@zsh> ::= {{{{{{ c2 }}}}}};\n<P> ::= {{{{{{ c1 }}}}}};\n<Q> ::= {{{{{{ c2 }}}}}};\n"));
+        texts.push(format!("cmd p(aa {o1} <U>) q {o2} r;\n"));
+    }
+    texts.extend(corpus.iter().map(|g| g.print()));
+    for text in texts {
+        if pool.len() >= 1200 {
+            break;
+        }
+        if !text.contains('=') && !text.contains(")(") && !text.contains("<O>") && !text.starts_with("cmd p(") {
+            // cheap pre-filter: no within-word expression
+            continue;
+        }
+        let (t2, s2) = (text.clone(), shell.to_string());
+        let Ok(Ok(comp)) = guarded(move || compile(&t2, &s2)) else { continue };
+        let dfa = &comp.min;
+        let needs = th::needs(dfa);
+        let cmds = th::commands(dfa);
+        for (dfaid, _) in th::subwords(dfa, start) {
+            let sd = dh::subdfa_of(dfa, dfaid);
+            let t = th::lookup_tables(sd, &cmds, start, needs[2], shell == "zsh" && needs[4], needs[6]);
+            let d = t.dump();
+            let shape = shape_of(&d);
+            if seen.insert(shape.clone()) {
+                pool.push((t, shape, d.shape_hash, text.clone()));
+            }
+        }
+    }
+    let mut vs = vec![];
+    let mut pairs = 0u64;
+    for i in 0..pool.len() {
+        for j in (i + 1)..pool.len() {
+            pairs += 1;
+            // distinct shapes by construction
+            if pool[i].0.isomorphic_to(&pool[j].0) || pool[j].0.isomorphic_to(&pool[i].0) {
+                vs.push(Violation {
+                    obligation: "C04.tables.grouping.isomorphic_implies_same_tables".into(),
+                    what: format!("two within-word table sets that print differently are reported isomorphic (they would share one emitted table set): [{}] vs [{}]", pool[i].1.chars().take(160).collect::<String>(), pool[j].1.chars().take(160).collect::<String>()),
+                    input: J::obj(vec![("grammar_a", J::s(&pool[i].3)), ("grammar_b", J::s(&pool[j].3)), ("shell", J::s(shell))]),
+                    expected: J::s("not isomorphic"),
+                    actual: J::s("isomorphic"),
+                    signature: "C04.tables.grouping.isomorphic_implies_same_tables|pool".into(),
+                    replay_args: vec!["c04_tables".into(), "C04.tables.grouping.isomorphic_implies_same_tables".into(), shell.into(), pool[i].3.clone()],
+                });
+                if vs.len() > 20 {
+                    return (pairs, vs);
+                }
+            }
+        }
+    }
+    (pairs, vs)
 }
